@@ -44,5 +44,13 @@ CLAIMED = {
     note="cvc5 --solve-bv-as-int=sum decides the conversion proofs (guarded by a mutated-spec twin that must fail); portable mul and "
          "arbitrary-frequency conversion are bounded as stated because the 64x64 divider finished on no back end; msvc/arm64 variants not compiled here.",
     technique="CBMC bit-precise equivalence checking (SAT kissat/minisat, SMT cvc5 bv-as-int) + own x86 asm-to-SMT encoder decided by z3"),
+ "C15": dict(
+    text="Ring buffer: from every state of the invariant J (empty / linear / wrapped head-tail configurations, ring size 1..12 quick, "
+         "1..40 thorough, request sizes unconstrained) one acquire or acquire_up_to is shown to return a buffer inside the storage, of "
+         "exactly the requested size (or within [min, requested]), disjoint from the whole occupied region, and to re-establish J; release "
+         "of the oldest of 1..3 outstanding buffers re-establishes J and after the last release acquire(size) succeeds. Interleavings: one "
+         "acquire (either form) races 0..2 whole FIFO release() calls injected by the solver before/after each of its atomic loads and stores.",
+    note="Sequential consistency assumed (no C11 memory model in CBMC): a weakened memory_order is not detectable. Single acquirer, FIFO releaser (documented usage).",
+    technique="CBMC bounded symbolic execution; one-step induction over a head/tail state invariant; thread interleavings sequentialised at atomic accesses with solver-chosen schedule"),
 }
 NOT_APPLICABLE = {p: PENDING for p in ["C%02d" % i for i in range(1, 21)]}
